@@ -9,7 +9,7 @@
    which types are private to one session): the -race driver run is the check of that, and it samples schedules. *)
 From Coq Require Import List String NArith Bool Arith.
 From Verif Require Import model.Conc model.SharedStateAllow gen.SharedState model.ConcCorr
-  proofs.ConcProofs proofs.ConcSites.
+  proofs.ConcProofs proofs.ConcHB proofs.ConcSites.
 Import ListNotations.
 Local Open Scope nat_scope.
 
@@ -29,6 +29,26 @@ Theorem c09_solo_equiv_partial : forall load progs sched t p,
   (thread_done c t = true -> thread_out c t = solo_out load p []).
 Proof. exact solo_equiv. Qed.
 Print Assumptions c09_solo_equiv_partial.
+
+(* the race reports of the instrumented semantics are sound for the relational definition: for EVERY program, lock
+   discipline and schedule, a run without a report has no two conflicting accesses by different goroutines that are
+   unordered by happens-before (transitive closure of program order and Unlock -> every later Lock) *)
+Theorem c09_no_report_no_race : forall load locked progs sched,
+  g_races (run load sched (init locked progs)) = [] -> ~ relational_race (run load sched (init locked progs)).
+Proof. exact no_report_no_race. Qed.
+Print Assumptions c09_no_report_no_race.
+
+(* hence race freedom in the relational sense *)
+Theorem c09_race_free_relational_partial : forall load progs sched,
+  Forall (Forall disciplined) progs -> ~ relational_race (run load sched (init true progs)).
+Proof. exact race_free_relational. Qed.
+Print Assumptions c09_race_free_relational_partial.
+
+(* one definition object per flow: every flow is loaded at most once per cold cache, whatever the schedule *)
+Theorem c09_single_load_partial : forall load progs sched u,
+  Forall (Forall disciplined) progs -> loads_of u (run load sched (init true progs)) <= 1.
+Proof. exact single_load. Qed.
+Print Assumptions c09_single_load_partial.
 
 (* `solo_out` is what the program observes when its goroutine is the only one (it finishes, with that output) *)
 Theorem c09_solo_run_spec : forall load p,
